@@ -97,7 +97,9 @@ def case_inst_fail(r):
 
 
 def case_random(r):
-    ops = []
+    ops = [ent(r, 48)] if r.chance(2, 3) else []
+    if r.chance(1, 4):
+        ops.append("read 0")                      # a zero-length first call still instantiates
     for _ in range(r.range(2, 30)):
         k = r.below(100)
         if k < 20:
